@@ -20,12 +20,11 @@ def parsePixels : List String → Option (List (Pix Float))
 
 /-- `loss <pyname> frac sysBase contamBase sigFrac  (m d r good)*`
 reply: `terms=<per-pixel log-prob …> nuis=<name=logp …> det=<name=value …> site=<name>:<factor|sample>` -/
-def lossCmd (args : List String) : String :=
+def lossCmdK (K : LossConstsQ) (args : List String) : String :=
   match args with
   | kind :: f :: s :: c :: g :: rest =>
     match parseLossKind kind, parseFs [f, s, c, g], parsePixels rest with
     | some k, some [f, s, c, g], some pixels =>
-      let K := Gen.lossConsts
       let nu : Nuis Float := ⟨f, s, c, g⟩
       let terms := lossTerms K k nu pixels
       let v : String → Float := fun n =>
@@ -39,5 +38,19 @@ def lossCmd (args : List String) : String :=
       s!"terms={showFs terms} nuis={" ".intercalate nuis} det={" ".intercalate det} site={sn}:{if isF then "factor" else "sample"}"
     | _, _, _ => "bad-op loss-args"
   | _ => "bad-op loss-arity"
+
+def lossCmd (args : List String) : String := lossCmdK Gen.lossConsts args
+
+/-- `lossopt <cNum> <cDen> <deltaNum> <deltaDen> <loss args…>`: the same with the keyword arguments `c` (mixtures) and
+`delta` (pseudo-Huber) given by the caller instead of taken from the source defaults -/
+def lossOptCmd (args : List String) : String :=
+  match args with
+  | cn :: cd :: dn :: dd :: rest =>
+    match cn.toInt?, cd.toNat?, dn.toInt?, dd.toNat? with
+    | some cn, some cd, some dn, some dd =>
+      if cd == 0 || dd == 0 then "bad-op lossopt-den" else
+      lossCmdK { Gen.lossConsts with c := ⟨cn, cd⟩, delta := ⟨dn, dd⟩ } rest
+    | _, _, _, _ => "bad-op lossopt-args"
+  | _ => "bad-op lossopt-arity"
 
 end Pysersic.Driver
